@@ -15,6 +15,8 @@ THEOREMS = [
     ("EG.props.C04", "C04_validated_never_panics"),
     ("EG.props.C04", "C04_refuted_wr_zero_total"),
     ("EG.props.C04", "C04_replace_choice_in_loaded_list"),
+    ("EG.props.C04", "C04_replace_list_current_at_load"),
+    ("EG.props.C04", "C04_checker_accepts_balanced"),
 ]
 HARNESSES = [
     dict(name="seq", pkg="pkg/filters/proxy", files=["harness/proxy/zz_verif_c04_test.go"],
